@@ -53,6 +53,11 @@ def _ops(cfg: HubConfig, info) -> List[Tuple[str, List[List]]]:
             out.append((f"pub({s},T1)", a.data(s, T1, b"\x01\x02\x03\x04")))
             if churn and s != "C":
                 out.append((f"disconnect({s})", a.disconnect(s)))
+                if s in cfg.loggers:
+                    # a logger that dies without a word: found on the read side, or - in a round in which an acknowledgement is
+                    # copied to the loggers before its socket is looked at - on the write side
+                    out.append((f"reset({s})", a.reset(s)))
+                    out.append((f"close({s})", a.close(s)))
         elif churn:
             # present but not connected (refused or closed by the manager): the client goes away
             out.append((f"close({s})", a.close(s)))
@@ -98,7 +103,9 @@ def configs(tier: str) -> List[Any]:
             # subscription control incl. repeats / no-ops / while subscribed to all; fixed population
             builder(tier=tier, subscribers="AB", loggers="G", pre="ABG", ctl="ABG", pairs="all"),
             # two loggers, one of them the sender, timecode header, reversed hash order
-            builder(tier=tier, subscribers="B", loggers="GH", pre="B", churn="GH", ctl="BG", pairs="none", tc=True, flip=True),
+            # (pairs: a logger's close / reset in the same round as another module's control frame, both service orders)
+            builder(tier=tier, subscribers="B", loggers="GH", pre="B", churn="GH", ctl="BG", pairs="all", tc=True, flip=True),
+            builder(tier=tier, subscribers="B", loggers="GH", pre="BGH", churn="GH", ctl="B", pairs="all"),
             # the sender (or a logger) is reported not writable in the very round its control frame is served
             builder(tier=tier, subscribers="AB", loggers="G", pre="ABG", ctl="AB", pairs="none", nw_ops=True),
             # two instances of one module id: the acknowledgement goes to the sending connection only
